@@ -1,6 +1,6 @@
 #!/bin/bash
 # mutrun.sh ID [checks]  — run both variants
-cd /verif
+cd "$(dirname "$0")/.."
 for v in ${VARIANTS:-A B}; do
   d=/tmp/mut/out-$1; case $v in C|D) d=/tmp/mut/out2-$1;; E|F) d=/tmp/mut/out3-$1;; G|H) d=/tmp/mut/out4-$1;; esac
   [ -f $d/$v.diff ] || continue
